@@ -28,14 +28,8 @@ def authorizePostInbox (F : TFacts) (a : J) : Prog Bool := do
   match prop F a "actor" with
   | none => Prog.fail .lib
   | some xs =>
-    let iris ← xs.foldlM (fun (acc : List Iri) j =>
-      match elemOf F j with
-      | .iri u => pure (acc ++ [u])
-      | .emb _ => do
-        -- the *activity's* id, not the embedded actor's (see DESIGN F3)
-        let id ← activityIdGet "AuthorizePostInbox: activity.GetJSONLDId().Get()" a
-        pure (acc ++ [id])
-      | .other _ => Prog.fail .lib) []
+    -- `IsIRI` → the IRI; embedded value → its own id (`GetId`); anything else is an error: this is `ToId` elementwise
+    let iris ← liftLib (idsOf F xs)
     let blocked ← Op.blocked iris
     if blocked then do Op.writeHeader 403; pure false else pure true
 
